@@ -239,6 +239,45 @@ void harness::run_case(const eng::Raw& raw, eng::Ctx& ctx)
 		tc::expect_unchanged(ctx, (bu ? "isect-bu" : "isect") + std::string(":lhs"), a, VA);
 		tc::expect_unchanged(ctx, (bu ? "isect-bu" : "isect") + std::string(":rhs"), b, VB);
 	}
+	// --- Union with exactly one of the two optional maps supplied
+	for (int side = 0; side < 2; ++side) {
+		StateMap m;
+		ExplicitTreeAut u;
+		{ eng::LibSection ls(ctx, side ? "Union(right-map-only)" : "Union(left-map-only)"); u = side ? ExplicitTreeAut::Union(a, b, nullptr, &m) : ExplicitTreeAut::Union(a, b, &m, nullptr); }
+		ref::TA U = lib::read(u);
+		tc::expect_equiv(ctx, side ? "union-right-map" : "union-left-map", U, wantUnion, "Union with one map");
+		check_union_map(ctx, side ? "union-right-map" : "union-left-map", U, side ? VB : VA, m, side ? "right" : "left");
+	}
+	// --- an operand that is a COPY of the other one sharing its rule storage, with its own final states
+	{
+		ref::TA VC;
+		VC.rules = VA.rules;
+		for (int q : VA.states()) if (gen::mix(c.header[6], static_cast<uint64_t>(q) + 5) % 2) VC.finals.insert(q);
+		ExplicitTreeAut cpy;
+		{
+			eng::LibSection ls(ctx, "copy-with-own-finals");
+			cpy = ExplicitTreeAut(a, true, false);
+			for (int q : VC.finals) cpy.SetStateFinal(static_cast<size_t>(q));
+		}
+		const ref::TA wantP = ref::product(VA, VC), wantP2 = ref::product(VC, VA);
+		for (int bu = 0; bu < 2; ++bu) {
+			ProdMap pm, pm2;
+			ExplicitTreeAut i, i2;
+			{
+				eng::LibSection ls(ctx, bu ? "IntersectionBU(shared-storage)" : "Intersection(shared-storage)");
+				i = bu ? ExplicitTreeAut::IntersectionBU(a, cpy, &pm) : ExplicitTreeAut::Intersection(a, cpy, &pm);
+				i2 = bu ? ExplicitTreeAut::IntersectionBU(cpy, a, &pm2) : ExplicitTreeAut::Intersection(cpy, a, &pm2);
+			}
+			check_product(ctx, bu ? "isect-bu-shared-storage" : "isect-shared-storage", lib::read(i), VA, VC, pm, wantP);
+			check_product(ctx, bu ? "isect-bu-shared-storage" : "isect-shared-storage", lib::read(i2), VC, VA, pm2, wantP2);
+		}
+		ExplicitTreeAut u;
+		{ eng::LibSection ls(ctx, "Union(shared-storage)"); u = ExplicitTreeAut::Union(a, cpy); }
+		tc::expect_equiv(ctx, "union-shared-storage", lib::read(u), ref::union_disjoint(VA, VC), "Union of an automaton with a copy that has other final states");
+		tc::expect_unchanged(ctx, "shared-storage:lhs", a, VA);
+		tc::expect_unchanged(ctx, "shared-storage:copy", cpy, VC);
+		if (!wantP.empty_lang()) ctx.tag("shared-storage-product-nonempty");
+	}
 	// --- caller-supplied pre-filled product maps: the complete map of a previous call (same operands), also across
 	//     the two intersection algorithms (their values are dense 0..size-1, so new pairs cannot collide)
 	{
